@@ -15,10 +15,16 @@ import (
 // watermark that is >= the previous one (monotone). Event times and watermarks are whole seconds
 // in [0, tdom). With late == 0 no record (addition or retraction) carries an event time <= the
 // last watermark (the convention of max_diff_watermark: on-time means strictly after).
-// It also returns the records in arrival order.
-func NDStream(name string, L, tdom, late int) (msgs []vx.Msg, recs []execution.Record) {
+// It also returns the records in arrival order and the consolidated input `net` (the additions
+// that were never retracted; known concretely because retractions are chosen by position).
+//
+// tz == 1: the event time of every addition is forked over the Local / UTC representation of the
+// instant. mixed is the (symbolic) condition "two additions with different keys carry the same
+// instant in different representations".
+func NDStream(name string, L, tdom, late, tz int) (msgs []vx.Msg, recs, net []execution.Record, mixed bool) {
 	var live []int // indices in recs
 	var secs []int64
+	var utcs []bool
 	wmSet := false
 	var wm int64
 	for i := 0; i < L; i++ {
@@ -29,10 +35,20 @@ func NDStream(name string, L, tdom, late int) (msgs []vx.Msg, recs []execution.R
 			if late == 0 && wmSet {
 				zzverif.Assume(s > wm)
 			}
+			utc := false
+			if tz == 1 && zzverif.Choice(fmt.Sprintf("%s.t%d.utc", name, i), 2) == 1 {
+				t, utc = t.UTC(), true
+			}
 			row := []octosql.Value{octosql.NewTime(t), vx.NDCell(fmt.Sprintf("%s.k%d", name, i)), vx.NDCell(fmt.Sprintf("%s.v%d", name, i))}
 			rec := execution.NewRecord(row, false, t)
+			for j := range recs {
+				if !recs[j].Retraction && utcs[j] != utc {
+					mixed = zzverif.Or(mixed, zzverif.And(secs[j] == s, zzverif.Not(cellEq(recs[j].Values[1], row[1]))))
+				}
+			}
 			recs = append(recs, rec)
 			secs = append(secs, s)
+			utcs = append(utcs, utc)
 			live = append(live, len(recs)-1)
 			msgs = append(msgs, vx.Msg{Kind: vx.MsgRecord, Rec: rec})
 		case k == 1: // watermark
@@ -53,10 +69,14 @@ func NDStream(name string, L, tdom, late int) (msgs []vx.Msg, recs []execution.R
 			rec := execution.NewRecord(vals, true, recs[idx].EventTime)
 			recs = append(recs, rec)
 			secs = append(secs, secs[idx])
+			utcs = append(utcs, utcs[idx])
 			msgs = append(msgs, vx.Msg{Kind: vx.MsgRecord, Rec: rec})
 		}
 	}
-	return msgs, recs
+	for _, idx := range live {
+		net = append(net, recs[idx])
+	}
+	return msgs, recs, net, mixed
 }
 
 // VerifC16Triggers: CustomTriggerGroupBy under every trigger set over a watermarked stream with
@@ -70,7 +90,8 @@ func NDStream(name string, L, tdom, late int) (msgs []vx.Msg, recs []execution.R
 // KeyEventTimeIndex 0 (required by the planner for ON WATERMARK), 0 = GROUP BY key only
 // (KeyEventTimeIndex -1; trigger sets containing ON WATERMARK are skipped, the planner rejects
 // them); AGGSET / VDOM as in VerifC03GroupBy; SIMPLE 1 = also run SimpleGroupBy on the same stream
-// and compare the two consolidated outputs.
+// and compare the two consolidated outputs; TZ 1 = event times forked over Local / UTC
+// representations of the instant; TCONC 1 = instants forked concretely (same domain).
 func VerifC16Triggers() {
 	L := zzverif.Param("L")
 	mask := zzverif.Param("TRIG")
@@ -78,6 +99,7 @@ func VerifC16Triggers() {
 	tdom := zzverif.Param("TDOM")
 	late := zzverif.Param("LATE")
 	byTime := zzverif.Param("BYTIME")
+	ConcreteTimes = zzverif.Param("TCONC") == 1
 	if mask == 0 {
 		mask = 1 + zzverif.Choice("trig", 7)
 	}
@@ -96,8 +118,13 @@ func VerifC16Triggers() {
 		timeIdx = -1
 	}
 
-	msgs, in := NDStream("s", L, tdom, late)
+	msgs, in, net, mixed := NDStream("s", L, tdom, late, zzverif.Param("TZ"))
 	restrictVals(in, spec.ValCol, zzverif.Param("VDOM"))
+
+	// Known finding (see VerifC17Trigger): the watermark trigger's btree identifies two different
+	// group keys whose event times are the same instant in different time.Time representations, so
+	// one of the two groups is never polled and its result never reaches the output.
+	zzverif.Known("C17-watermark-trigger-time-identity", zzverif.And(mask&TrigWatermark != 0, mixed))
 
 	sink := &vx.Sink{}
 	trig := TriggerPrototype(mask, n, 0)
@@ -105,7 +132,7 @@ func VerifC16Triggers() {
 	zzverif.Reach("ran")
 	zzverif.Assert(err == nil, "no-error")
 	out := sink.Records()
-	zzverif.Assert(spec.MatchesReference(in, out), "final-result-is-batch-grouping")
+	spec.AssertMatches(net, out, "final")
 	zzverif.Assert(validChangelog(out), "output-changelog-valid")
 
 	if zzverif.Param("SIMPLE") == 1 {
